@@ -405,5 +405,5 @@ def run(ctx):
     ctx.assumptions = ["external qaptools binaries replaced by failing stubs: the backend's own splitting step runs, key generation/proving do not",
                        "own parser/evaluator of the equation grammar (harness/decoders/qapfiles.py)",
                        "the child wraps backend.privval/pubval/add_constraint to log the independent trace"]
-    n = 40 if ctx.tier == "quick" else 800
+    n = 80 if ctx.tier == "quick" else 1000
     ctx.stats = core.run_shards("harness.checks.c12", "shard", [dict(seed=ctx.seed * 1000 + i, n_examples=n) for i in range(16)])
